@@ -660,6 +660,23 @@ fn mapped_labels(y: &[f64]) -> Vec<f64> {
 fn corr_svc(out: &mut Out, rng: &mut Rng, k: &Kern, x: &[Vec<f64>], y: &[f64], c: f64, epoch: usize, tol: f64) {
     let q = make_queries(rng, x, 2);
     let input = json!({"entry": "svc", "kernel": k.to_json(), "x": x, "y": y, "c": c, "epoch": epoch, "tol": tol, "reps": 200});
+    if HANGS.with(|h| h.get()) >= 3 {
+        out.count("corr:skipped-after-3-hangs");
+        return;
+    }
+    // untraced first, so that a fit that does not return cannot fill the trace buffer
+    match svc_guarded(k, x, y, c, epoch, tol, &q, false, 10) {
+        None => {
+            HANGS.with(|h| h.set(h.get() + 1));
+            out.fail("svc_termination", "SVC::fit did not return within 10 s", input.clone());
+            return;
+        }
+        Some(Err(msg)) => {
+            out.fail("svc_no_panic", &format!("fit / predict failed: {}", msg), input.clone());
+            return;
+        }
+        Some(Ok(_)) => {}
+    }
     let r = match svc_guarded(k, x, y, c, epoch, tol, &q, true, 30) {
         Some(Ok(r)) => r,
         _ => return, // the search reports panics / hangs
@@ -762,6 +779,22 @@ fn coq_rrecs(alpha: &[[f64; 2]], grad: &[[f64; 2]]) -> String {
 
 fn corr_svr(out: &mut Out, k: &Kern, x: &[Vec<f64>], y: &[f64], eps: f64, c: f64, tol: f64) {
     let input = svr_input(k, x, y, eps, c, tol);
+    if HANGS.with(|h| h.get()) >= 3 {
+        out.count("corr:skipped-after-3-hangs");
+        return;
+    }
+    match svr_guarded(k, x, y, eps, c, tol, x, false, 10) {
+        None => {
+            HANGS.with(|h| h.set(h.get() + 1));
+            out.fail("svr_termination", "SVR::fit did not return within 10 s", input.clone());
+            return;
+        }
+        Some(Err(msg)) => {
+            out.fail("svr_no_panic", &format!("fit / predict failed: {}", msg), input.clone());
+            return;
+        }
+        Some(Ok(_)) => {}
+    }
     let r = match svr_guarded(k, x, y, eps, c, tol, x, true, 30) {
         Some(Ok(r)) => r,
         _ => return,
